@@ -171,6 +171,14 @@ def gen_job(verif_seed, tier, index):
                 excl.append(k[1])
             src = recent[-6:] if (recent and g.random() < 0.7) else pos_now[-30:]
             p = _rand_point(g, box, src, cut)
+            if small_pos and g.random() < 0.06:
+                # the query point coincides bit for bit with a positioned residue (distance exactly 0)
+                k2 = g.choice([kk for kk in state if kk[0] in small_mols and state[kk] is not None])
+                p = list(state[k2])
+                if k2[0] == k[0]:
+                    excl = [e for e in excl if e != k2[1]]
+                    if k2 == k:
+                        excl = [e for e in excl if e != k[1]]
             ops.append(["force", p, k[0], k[1], excl])
         elif kind == "mindist":
             a = [_r6(g.uniform(-0.5 * box[i], 1.5 * box[i])) for i in range(3)]
